@@ -395,7 +395,13 @@ fn gen_fault(rng: &mut Prng) -> Fault {
             let l = *rng.pick(&[0usize, 1, 15, 16, 17, 31, 32, 33, 64, 1000, 70001]);
             Fault::Garbage(b(rng.bytes(l)))
         }
-        12 => Fault::Insert(b(vec![0u8; rng.range(1, 17)])),
+        12 => {
+            if rng.chance(1, 2) {
+                Fault::Insert(b(vec![0u8; rng.range(1, 17)]))
+            } else {
+                { let l = rng.range(1, 17); Fault::TagExtend(b(rng.bytes(l))) }
+            }
+        }
         _ => Fault::Truncate(rng.below(1 << 16) as usize),
     }
 }
@@ -503,6 +509,14 @@ pub fn gen_history(rng: &mut Prng, run: u64, o: &HistOpts) -> Vec<Ev> {
             ev.push(Ev::Deliver { r: c, from: c, rec: RecRef::Next, fault: Fault::None, api: open_api(rng) });
         }
     }
+    if o.jumps && rng.chance(1, 6) {
+        for c in 0..ns {
+            if cfgs[c].suite.aead.seals() {
+                ev.push(Ev::SealMany { c, n: 300, len: 0, inplace: rng.chance(1, 2) });
+                ev.push(Ev::StripZerosProbe { r: c, from: c });
+            }
+        }
+    }
     // Heal: faults stop; the sender seals a few more messages and the wire delivers everything
     // from the receiver's position in order. Each of these deliveries must succeed at once.
     for c in 0..ns {
@@ -572,6 +586,13 @@ pub fn gen_c06(rng: &mut Prng, run: u64, t: &Tier) -> Vec<Ev> {
         };
         let rec = if matches!(api, OpenApi::SingleShot | OpenApi::SingleShotInPlace) { 0 } else { i };
         ev.push(Ev::TamperSweep { r: 0, from: 0, rec, api, max_bits, only: None });
+    }
+    // content-dependent adversary: many empty / short messages, then every record whose tag happens
+    // to end in zero bytes is delivered with those bytes stripped
+    if rng.chance(1, 2) {
+        let n = if t.thorough { 3000 } else { 700 };
+        ev.push(Ev::SealMany { c: 0, n, len: *rng.pick(&[0usize, 0, 0, 1, 5]), inplace: rng.chance(1, 2) });
+        ev.push(Ev::StripZerosProbe { r: 0, from: 0 });
     }
     // same position in a restarted session with fresh randomness: its records must not splice in
     if rng.chance(1, 3) {
@@ -1287,6 +1308,35 @@ pub fn gen_c13(rng: &mut Prng, run: u64, t: &Tier) -> Vec<Ev> {
         let aad = b(if rng.chance(1, 8) { rng.bytes(huge) } else { rng.var_bytes(64) });
         let tag = if rng.chance(1, 2) { Some(b({ let l = *rng.pick(&[0usize, 1, 15, 16, 16, 16, 17, 32, 4096]); rng.bytes(l) })) } else { None };
         ev.push(Ev::RawOpen { r: if rng.chance(1, 4) { 1 } else { 0 }, ct: b(rng.bytes(l)), aad, tag });
+    }
+    // hostile but decodable keys in every role (X25519: any 32 bytes decode; the small-order ones
+    // make a DH result zero, in the first or only in the second DH)
+    if kem == KemId::X25519 && rng.chance(1, 2) {
+        let small = math::x25519_small_order();
+        let hostile = if rng.chance(3, 4) { rng.pick(&small).clone() } else { rng.bytes(32) };
+        ev.push(Ev::KeyRaw { k: 8, kem, sk: b(rng.rand_bytes(32)), pk: b(hostile.clone()) });
+        let ks = if mode.has_auth() { Some(1) } else { None };
+        match rng.below(4) {
+            0 => ev.push(Ev::SetupS { c: 2, cfg: cfg.clone(), kr: 8, ks, ks_pub: None, rng: rng_script(rng, kem), model_only: false }),
+            1 => ev.push(Ev::SetupR { c: 2, cfg: cfg.clone(), kr: 0, ks, enc: EncSrc::Raw(b(hostile.clone())), model_only: false }),
+            2 => {
+                // honest enc, hostile sender identity key: only the second DH is degenerate
+                let mut c2 = cfg.clone();
+                if !c2.mode.has_auth() {
+                    c2.mode = if c2.mode.has_psk() { ModeKind::AuthPsk } else { ModeKind::Auth };
+                }
+                ev.push(Ev::Keygen { k: 1, kem, ikm: ikm(rng) });
+                ev.push(Ev::SetupS { c: 2, cfg: c2.clone(), kr: 0, ks: Some(1), ks_pub: None, rng: rng_script(rng, kem), model_only: false });
+                ev.push(Ev::SetupR { c: 2, cfg: c2.clone(), kr: 0, ks: Some(8), enc: EncSrc::Of(2), model_only: false });
+                ev.push(Ev::SingleShotOpenRaw { cfg: c2.clone(), kr: 0, ks: Some(8), enc: EncSrc::Of(2), ct: b(rng.bytes(20)), aad: b(vec![]), tag: None });
+                ev.push(Ev::KemProbe { kem, kr: 0, ks: Some(8), rng: rng_script(rng, kem) });
+            }
+            _ => {
+                ev.push(Ev::SingleShotOpenRaw { cfg: cfg.clone(), kr: 0, ks, enc: EncSrc::Raw(b(hostile.clone())), ct: b(rng.bytes(20)), aad: b(vec![]), tag: if rng.chance(1, 2) { Some(b(rng.bytes(16))) } else { None } });
+                let (pt, aad) = msg(rng, false);
+                ev.push(Ev::SingleShotSeal { c: 3, cfg: cfg.clone(), kr: 8, ks, rng: rng_script(rng, kem), pt, aad, inplace: rng.chance(1, 2) });
+            }
+        }
     }
     // lifecycle states: the same hostile inputs against a context at a far position or an exhausted one
     match rng.below(4) {
